@@ -25,6 +25,7 @@ import (
 	"net/http"
 	"net/textproto"
 	"net/url"
+	"strconv"
 	"strings"
 	"sync"
 )
@@ -94,6 +95,9 @@ type Transport struct {
 	// handler returns (sequential explorers).  Otherwise it is the separate
 	// event thread "T.closeReq".
 	SyncCloseReq bool
+	// FailDo, if non-nil, makes Do fail with this error before any response
+	// (connection refused / closed without an answer).
+	FailDo error
 	// OnReqClosed is told who closed the client's request body first.
 	OnReqClosed func(who string)
 
@@ -275,6 +279,12 @@ func (t *Transport) Do(req *http.Request) (*http.Response, error) {
 		}
 		return nil, urlErr(err)
 	}
+	if t.FailDo != nil {
+		if req.Body != nil {
+			_ = req.Body.Close()
+		}
+		return nil, urlErr(t.FailDo)
+	}
 	proto := t.Proto
 	if proto == 0 {
 		proto = 2
@@ -374,6 +384,11 @@ func (t *Transport) Do(req *http.Request) (*http.Response, error) {
 		ContentLength: -1,
 		Request:       req,
 		Trailer:       http.Header{},
+	}
+	if cl := hdr.Get("Content-Length"); cl != "" {
+		if n, err := strconv.ParseInt(cl, 10, 64); err == nil && n >= 0 {
+			resp.ContentLength = n
+		}
 	}
 	resp.Proto, resp.ProtoMajor, resp.ProtoMinor = protoStrings(proto)
 	c.mu.Lock()
